@@ -284,6 +284,10 @@ def main(argv):
     if broken and not found and search is not None:
         rep.note('obligation / tie broken; searching for a failing input on the real code')
         found = search()
+    if broken and not found:
+        import multiloop
+        found = multiloop.search_failing_input(rep, sols, c06_loop.counted_monitor, tier,
+                                               n=1500 if tier == 'quick' else 25000, nsweep=1, label='loop ')
     if broken:
         for b in broken:
             rep.note('BROKEN: ' + b[:600])
